@@ -258,7 +258,11 @@ func (p *parser) readType() (t Type, err error) {
 			var token string
 			token, err = p.readToken()
 			if err == nil && 0 < len(token) {
-				if t = p.root.GetType(token); t == nil {
+				// The name of a type is looked up in the types only. A
+				// directive with the same name is not a type, the type can
+				// be defined later in the document.
+				p.root.init()
+				if t = p.root.types.get(token); t == nil {
 					t = &Ref{Base: Base{N: token}}
 				}
 			}
